@@ -452,24 +452,25 @@ SIZES = {
         "quick": dict(n484=40, rl=[(6, 6, 2), (8, 8, 2), (10, 10, 2), (12, 12, 2), (14, 14, 1), (16, 16, 1), (18, 18, 1), (20, 20, 1), (30, 30, 1), (40, 40, 1)], s3=250, s3q=8, gen=24, gq=12),
         "thorough": dict(
             n484=484,
-            rl=[(a, a, 6) for a in (6, 8, 10, 12, 14, 16, 18, 20, 30, 40)] + [(50, 50, 4), (60, 60, 4), (80, 80, 2), (80, 60, 1), (100, 60, 1), (120, 60, 1), (60, 80, 1), (100, 100, 1), (120, 120, 1)],
-            s3=4000,
+            rl=[(a, a, 10) for a in (6, 8, 10, 12, 14, 16, 18, 20, 30, 40)]
+            + [(50, 50, 6), (60, 60, 6), (80, 80, 4), (80, 60, 2), (100, 60, 2), (120, 60, 2), (60, 80, 2), (100, 100, 2), (120, 120, 2)],
+            s3=6000,
             s3q=8,
-            gen=300,
+            gen=600,
             gq=14,
         ),
     },
     "c09": {
-        "quick": dict(n484=6, rl=[(6, 6, 1), (10, 10, 1), (14, 14, 1)], s3=36, s3q=0, gen=4, gq=0),
-        "thorough": dict(n484=60, rl=[(a, a, 2) for a in (6, 8, 10, 12, 14, 16, 18, 20)] + [(30, 30, 1), (40, 40, 1)], s3=500, s3q=0, gen=40, gq=0),
+        "quick": dict(n484=5, rl=[(6, 6, 1), (10, 10, 1), (14, 14, 1)], s3=30, s3q=0, gen=4, gq=0),
+        "thorough": dict(n484=60, rl=[(a, a, 2) for a in (6, 8, 10, 12, 14, 16, 18, 20)] + [(30, 30, 1), (40, 40, 1)], s3=400, s3q=0, gen=40, gq=0),
     },
     "c11": {
-        "quick": dict(n484=12, rl=[(6, 6, 1), (10, 10, 1), (14, 14, 1), (20, 20, 1)], s3=70, s3q=6, gen=8, gq=8),
-        "thorough": dict(n484=120, rl=[(a, a, 2) for a in (6, 8, 10, 12, 14, 16, 18, 20, 30)] + [(40, 40, 1), (50, 50, 1)], s3=900, s3q=6, gen=80, gq=10),
+        "quick": dict(n484=10, rl=[(6, 6, 1), (10, 10, 1), (14, 14, 1), (20, 20, 1)], s3=55, s3q=6, gen=8, gq=8),
+        "thorough": dict(n484=120, rl=[(a, a, 2) for a in (6, 8, 10, 12, 14, 16, 18, 20, 30)] + [(40, 40, 1), (50, 50, 1)], s3=700, s3q=6, gen=80, gq=10),
     },
     "c12": {
         "quick": dict(n484=10, rl=[(6, 6, 1), (10, 10, 1), (14, 14, 1)], s3=50, s3q=6, gen=6, gq=8),
-        "thorough": dict(n484=100, rl=[(a, a, 2) for a in (6, 8, 10, 12, 14, 16, 18, 20)] + [(30, 30, 1), (40, 40, 1)], s3=600, s3q=6, gen=60, gq=10),
+        "thorough": dict(n484=60, rl=[(a, a, 2) for a in (6, 8, 10, 12, 14, 16, 18, 20)] + [(30, 30, 1), (40, 40, 1)], s3=400, s3q=6, gen=40, gq=10),
     },
 }
 
@@ -1044,16 +1045,18 @@ def run_c11(tier, seed):
                 key = f"{s}/{'weakly' if w else 'strict'}: rc2 vs {pm}"
                 extra["disagreeing_backends"][key] = extra["disagreeing_backends"].get(key, 0) + 1
                 if extra["disagreeing_backends"][key] <= 3:
-                    qs = c["qtexts"]
+                    qs, obs = c["qtexts"], {ref_pm: ref, pm: r}
                     if "ans" in ref and "ans" in r:
-                        qs = [q for q, x, y, t1, t2 in zip(qs, ref["ans"], r["ans"], ref["to"], r["to"]) if x != y and not (t1 or t2)][:3]
+                        idx = [j for j in range(len(qs)) if ref["ans"][j] != r["ans"][j] and not (ref["to"][j] or r["to"][j])][:3]
+                        qs = [qs[j] for j in idx]
+                        obs = {ref_pm: [ref["ans"][j] for j in idx], pm: [r["ans"][j] for j in idx]}
                     violations.append(
                         dict(
                             module="rel",
                             kind="c11-backend",
-                            input=dict(base_input(c["base"]), base_id=c["id"], queries=[qtext(q) for q in qs], system=s, weakly=w, backends=[ref_pm, pm]),
+                            input=dict(base_input(c["base"]), base_id=c["id"], queries=[qtext(q) for q in qs], system=s, weakly=w, backends=[ref_pm, pm], engine_class="usable" if pm != "z3" else "z3"),
                             expected="equal answers",
-                            observed={ref_pm: ref.get("ans", ref), pm: r.get("ans", r)} if len(qs) != len(c["qtexts"]) else {ref_pm: ref, pm: r},
+                            observed=obs,
                         )
                     )
         if accepted:
